@@ -414,3 +414,15 @@ def run(ck):
                       "declared %s" % fl.get("type") if ok_ else
                       "the Chainer holds the derived core as %s: when the upstream promise of a temporary chain is gone nothing keeps the core alive and the inner promise's outcome is dropped" % fl.get("type"))
     ck.require(nch >= 1, "Chainer's reference to the derived core not found")
+
+    # ---------------- R8: the internal rethrow marker cannot be caught by accident ----------------
+    ck.rule("C11-R8", "I type-level",
+            "Private::InternalRethrow -- what a rejection continuation throws to pass the rejection on (Async::Throw) -- is not derived from "
+            "anything: a `catch (const std::exception&)` (or any other base) written round a user continuation cannot swallow it, so the "
+            "derived promise is rejected by the one handler that is meant to see it", 1)
+    ir = prog.cls("Pistache::Async::Private::InternalRethrow")
+    ck.require(ir is not None, "Private::InternalRethrow not found")
+    bases_ = [b_.get("name") for b_ in ir.get("bases", []) if b_.get("name")]
+    ck.ob("C11-R8", "InternalRethrow/no-base-class", not bases_, "%s:%s" % (ir.get("file"), ir.get("line")), "",
+          "no base class" if not bases_ else "InternalRethrow derives from %s: a handler for that base placed round a continuation swallows the forwarded rejection" % bases_)
+
